@@ -409,6 +409,46 @@ def storeLookupFailure (H : Bytes → UInt64) (fs : FStore) (name : Bytes) (qtyp
     (scope : Scope) : Option FEntry :=
   failureLookup H fs name qtype qclass cd scope
 
+/-! ### The single-flight key of a miss (`FailureCache.RetryKey`, `dedupKey` in `Cache.ServeDNS`) -/
+
+/-- the ancestor walk of `FailureCache.RetryKey`: `(activeZone, closestZoneExpired)`.  An active
+zone state stops the walk; the FIRST expired one met (the closest) is remembered. -/
+def retryZones (H : Bytes → UInt64) (fs : FStore) (qclass : UInt16) : List Bytes → Option UInt64 → Bool × Option UInt64
+  | [], acc => (false, acc)
+  | z :: t, acc =>
+    match loadZone H fs z qclass with
+    | none => retryZones H fs qclass t acc
+    | some e =>
+      if e.active then (true, acc)
+      else retryZones H fs qclass t (match acc with
+        | some h => some h
+        | none => some (failureZoneHash H z qclass))
+
+/-- `FailureCache.RetryKey` (through `Store.FailureRetryKey`): the slot of the expired failure
+generation a miss should probe — none while an exact or ancestor-zone state is still active
+(that one is an answer, not history); closest expired zone before the expired exact state. -/
+def retryKey (H : Bytes → UInt64) (fs : FStore) (name : Bytes) (qtype qclass : UInt16) (cd : Bool)
+    (scope : Scope) : Option UInt64 :=
+  let n := canonicalName name
+  let sc := normalizeKeyScope scope
+  let walk := fun (exactExpired : Option UInt64) =>
+    match retryZones H fs qclass (failureZones n.length n) none with
+    | (true, _) => none
+    | (false, some h) => some h
+    | (false, none) => exactExpired
+  match loadQuestion H fs n qtype qclass cd sc with
+  | some e => if e.active then none else walk (some (failureQuestionHash H n qtype qclass cd sc))
+  | none => walk none
+
+/-- `dedupKey` of `Cache.ServeDNS` at the moment a miss joins the single flight: the request's
+own `CacheKey{Question, CD, Scope: clientScope}.Hash()` (the shared key when the client has no
+usable scope), replaced by the retry key when an expired failure generation covers it. -/
+def dedupKey (H : Bytes → UInt64) (fs : FStore) (name : Bytes) (qtype qclass : UInt16) (cd : Bool)
+    (client : Scope) : UInt64 :=
+  match retryKey H fs name qtype qclass cd client with
+  | some k => k
+  | none => (CacheKey.mk name qtype qclass cd client).hash H
+
 def firstZoneWire (H : Bytes → UInt64) (fs : FStore) (qclass : UInt16) : List Bytes → Option FEntry
   | [] => none
   | z :: t =>
